@@ -103,7 +103,7 @@ StepResponse(e) ==
       r == IF ~ok THEN Disabled(e)
            ELSE IF cfg.version = "v0" THEN ResponseV0(cfg, st, V(e.v)) ELSE ResponseV1(cfg, st, e.i, V(e.v))
       n == Obs(e.post, r.st)
-  IN Commit(e, st, r, n, {}, ResDrift(e, r))
+  IN Commit(e, st, r, n, {}, {})       \* the outcome of a response is visible in the post-state only
 
 StepRecheck(e) ==
   LET ok == IsReq(e.i, "recheck") /\ st.inflight[e.i].tx = e.tx
@@ -113,7 +113,7 @@ StepRecheck(e) ==
   IN Commit(e, st, r, n,
             FailIf(~RecheckFilters(st, n, e.tx, V(e.v)),
                    [l |-> l, inv |-> "RecheckFilters", class |-> "rejected_recheck_stays"]),
-            ResDrift(e, r))
+            {})
 
 \* synchronous ABCI client (abcicli.NewLocalClient): admit and response in one call
 StepCheckTxSync(e) ==
